@@ -367,8 +367,8 @@ def pin_xmath_xrand_sampler_Next : List String := ["func (r *sampler[R]) Next() 
   "r.i--",
   "r.first = false",
   "}",
-  "v1 := math.Floor(math.Log(r.r.Float64()) / math.Log(1-r.w))",
-  "if math.IsInf(v1, 0) || math.IsNaN(v1) {",
+  "v1 := math.Floor(math.Log(r.r.Float64()) / math.Log1p(-r.w))",
+  "if math.IsInf(v1, 0) || math.IsNaN(v1) || v1 >= float64(math.MaxInt-r.i) {",
   "return math.MaxInt, 0",
   "}",
   "r.i += int(v1) + 1",
